@@ -193,8 +193,13 @@ class C19(Property):
             for _ in range(rnd.choice([1, 1, 2])):
                 inputs.append(dict(comp=f"C{k}", kind=rnd.choice(["pull", "pull", "pull", "pull", "push", "static", "push_static"]), parent=None))
         for x in inputs:
-            if rnd.random() < 0.04:
-                continue  # unconnected
+            if rnd.random() < 0.06:
+                # unconnected; sometimes an adapter already hangs on the input and another below an output,
+                # only the piece in between is missing (added after the first refused connect)
+                cands = [k for k, o in enumerate(outputs) if o["kind"] == "push"]
+                if cands and rnd.random() < 0.6:
+                    x["dangling"] = rnd.choice(cands)
+                continue
             oi = rnd.randrange(len(outputs))
             parent = ("out", oi)
             if outputs[oi]["kind"] == "static":
@@ -268,6 +273,14 @@ class C19(Property):
             if x["parent"] is not None:
                 obj(x["parent"]) >> ins[i]
                 expected_links.append((lname(x["parent"]), ("component", x["comp"], ins[i].name)))
+        dangling = {}
+        for i, x in enumerate(spec["inputs"]):
+            if x["parent"] is None and x.get("dangling") is not None and x["comp"] in spec["listed"] and spec["outputs"][x["dangling"]]["comp"] in spec["listed"]:
+                head = ADA["scale"]().with_name(f"head{i}")
+                tail = ADA["scale"]().with_name(f"tail{i}")
+                outs[x["dangling"]] >> head
+                tail >> ins[i]
+                dangling[i] = (head, tail)
         events = {"n": 0}
 
         def ev(*_a):
@@ -289,6 +302,20 @@ class C19(Property):
             # history: the user adds the forgotten link(s) - through a new adapter hanging below what exists - and connects again
             spec2 = dict(spec, inputs=[dict(x) for x in spec["inputs"]], nodes=[dict(nd) for nd in spec["nodes"]])
             for i, x in enumerate(spec2["inputs"]):
+                if i in dangling:
+                    head, tail = dangling[i]
+                    mid = ADA["scale"]().with_name(f"mid{i}")
+                    head >> mid >> tail
+                    k = x["dangling"]
+                    base = len(spec2["nodes"])
+                    spec2["nodes"] += [dict(kind="scale", parent=("out", k)), dict(kind="scale", parent=("node", base)), dict(kind="scale", parent=("node", base + 1))]
+                    ads.extend([head, mid, tail])
+                    o = spec["outputs"][k]
+                    expected_links += [(("component", o["comp"], outs[k].name), ("adapter", head.name, None)), (("adapter", head.name, None), ("adapter", mid.name, None)),
+                                       (("adapter", mid.name, None), ("adapter", tail.name, None)), (("adapter", tail.name, None), ("component", x["comp"], ins[i].name))]
+                    x["parent"] = ("node", base + 2)
+                    out.count("dangling_adapters_completed_after_refusal")
+                    continue
                 if x["parent"] is None and x["comp"] in spec["listed"]:
                     cands = [("node", j) for j, nd in enumerate(spec2["nodes"]) if nd["kind"] in ("scale", "dfix")] or [("out", k) for k, o in enumerate(spec["outputs"]) if o["kind"] != "static"]
                     if not cands:
@@ -353,7 +380,7 @@ class C19(Property):
 
     def coverage_gaps(self, counters, tier):
         need = ["expected_rejections", "expected_valid", "connected", "link_lists_compared", "reason_unconnected_input",
-                "reason_static_input_nonstatic_output", "reason_missing_component", "reason_branching", "reason_dead_link", "reconnect_attempts_after_refusal"]
+                "reason_static_input_nonstatic_output", "reason_missing_component", "reason_branching", "reason_dead_link", "reconnect_attempts_after_refusal", "dangling_adapters_completed_after_refusal"]
         return [f"{k} never observed" for k in need if not counters.get(k)]
 
 
